@@ -319,6 +319,16 @@ def generate(rng, tier):
             (gen_lime_index, 16), (gen_rise, 8)]
     for f, cnt in plan:
         cases += [f(rng, tier) for _ in range(cnt * k)]
+    # always present: HSIC explainers whose (explicit) estimator object is shared with a decoy explainer built on another sampler
+    found = 0
+    for _ in range(200):
+        if found >= 4:
+            break
+        c = gen_hsic(rng, tier)
+        if c["est"] != "default":
+            c["decoy"] = True
+            cases.append(c)
+            found += 1
     return cases
 
 
